@@ -176,6 +176,59 @@ def record_random_traces(seed, n, maxops, maxpos, maxlen):
     return traces
 
 
+def record_long_histories(seed, quick):
+    """histories of hundreds of operations (more fragments than any index shortcut is tuned for): front-to-back records with
+    gaps, a backward insert into an early gap, then an append that runs into an early fragment; an empty chunk far out
+    followed by hundreds of appends below it; long random histories.  The string is logged at checkpoints and at the end."""
+    from bisturi.fragments import Fragments
+    rnd = random.Random(seed + 17)
+    traces = []
+
+    def ev(f, op, p, s, step, every=97, force=False):
+        try:
+            if op == "setcur":
+                f.current_offset = p
+            elif op == "append":
+                f.append(s)
+            else:
+                f.insert(p, s)
+            raised = False
+        except Exception:
+            raised = True
+        chk = force or step % every == 0
+        return {"op": op, "p": p, "s": list(s), "raised": raised, "cur": f.current_offset,
+                "out": list(f.tobytes()) if chk else [], "chk": chk}
+    for n in ((70, 130) if quick else (70, 130, 600, 1100)):
+        for gap_at in (1, n // 2):
+            for tail in (b"yyy", b"y"):
+                f = Fragments()
+                tr = [ev(f, "insert", 4 * i, bytes([65 + i % 20, 66]), i) for i in range(n)]
+                tr.append(ev(f, "insert", 4 * gap_at + 2, b"x", 0, force=True))         # backwards, into an early gap
+                tr.append(ev(f, "append", f.current_offset, tail, 0, force=True))         # "yyy" runs into the next record
+                tr.append(ev(f, "append", f.current_offset, b"", 0, force=True))
+                traces.append(tr)
+    for n in ((100, 600) if quick else (100, 600, 1000, 1500)):
+        f = Fragments()
+        tr = [ev(f, "insert", 3 * n + 40, b"", 0, force=True), ev(f, "setcur", 0, b"", 0)]
+        tr += [ev(f, "append", f.current_offset, bytes([97 + i % 7, 98]), i) for i in range(n)]
+        tr.append(ev(f, "append", f.current_offset, b"", 0, force=True))
+        traces.append(tr)
+    for _ in range(2 if quick else 8):
+        f = Fragments()
+        tr = []
+        for i in range(300 if quick else 900):
+            k = rnd.random()
+            if k < 0.7:
+                tr.append(ev(f, "insert", rnd.randint(0, 1500), bytes(rnd.randrange(256) for _ in range(rnd.choice([0, 1, 1, 2]))), i))
+            elif k < 0.9:
+                tr.append(ev(f, "append", f.current_offset, bytes(rnd.randrange(256) for _ in range(rnd.choice([0, 1, 2]))), i))
+            else:
+                tr.append(ev(f, "setcur", rnd.randint(0, 1500), b"", i))
+        tr.append(ev(f, "append", f.current_offset, b"", 0, force=True))
+        traces.append(tr)
+    return traces
+
+
 def validate_traces(v, traces, label):
     """code -> spec: TLC decides whether each recorded trace is a behaviour of the spec."""
     # events with out=None (inside an extend) get the model's value: drop the conjunct by
@@ -240,6 +293,8 @@ def run(tier, seed):
     n = 1500 if quick else 12000
     traces = record_random_traces(seed, n, maxops=8 if quick else 12, maxpos=24, maxlen=5)
     validate_traces(v, traces, "Trace_Fragments on %d recorded random histories" % n)
+    longs = record_long_histories(seed, quick)
+    validate_traces(v, longs, "Trace_Fragments on %d recorded LONG histories (70..%d operations)" % (len(longs), max(len(t) for t in longs)))
     v.cov["exhaustive"] = True
     v.cov["rule"] = ("TLC enumerates every history of insert/append/cursor-set within the bounds "
                      "(positions 0..5, chunks of length <=2 over 2 letters); every maximal history of the "
